@@ -205,3 +205,37 @@ Check C12_select_identity_emits : forall (PR : PrimeR) bit a s,
     rows s ++ map arith_row (c_boolean bit :: selid_rows bit a n) /\
   length (wits (snd (component_select_identity bit a s))) = S (S n).
 Print Assumptions C12_select_identity_emits.
+
+(* inside any larger satisfied system *)
+From PlonkV Require Import Composer.InSystem.
+Theorem C12_add_in_system : forall (PR : PrimeR) (ND : NonSquareD) pre post asg a b t x3 y3,
+  let p := (asg (fst a), asg (snd a)) in let q := (asg (fst b), asg (snd b)) in
+  on_curve p -> on_curve q ->
+  sat (pre ++ var_rows a b t x3 y3 ++ post) asg ->
+  (asg x3, asg y3) = ed_add p q /\ on_curve (asg x3, asg y3).
+Proof. exact @add_sound_in_system. Qed.
+Check C12_add_in_system : forall (PR : PrimeR) (ND : NonSquareD) pre post asg a b t x3 y3,
+  let p := (asg (fst a), asg (snd a)) in let q := (asg (fst b), asg (snd b)) in
+  on_curve p -> on_curve q ->
+  sat (pre ++ var_rows a b t x3 y3 ++ post) asg ->
+  (asg x3, asg y3) = ed_add p q /\ on_curve (asg x3, asg y3).
+Print Assumptions C12_add_in_system.
+
+Theorem C12_mul_point_in_system : forall (PR : PrimeR) (ND : NonSquareD) pre post asg jubjub point n,
+  let P := (asg (fst point), asg (snd point)) in
+  asg W_ZERO = 0 -> asg W_ONE = 1 -> on_curve P ->
+  sat (pre ++ mul_point_rows jubjub point n ++ post) asg ->
+  let res := mul_point_result point n in
+  (val (asg jubjub) < 2 ^ 252)%Z /\
+  (asg (fst res), asg (snd res)) = ed_mul (val (asg jubjub)) P /\
+  on_curve (asg (fst res), asg (snd res)).
+Proof. exact @mul_point_sound_in_system. Qed.
+Check C12_mul_point_in_system : forall (PR : PrimeR) (ND : NonSquareD) pre post asg jubjub point n,
+  let P := (asg (fst point), asg (snd point)) in
+  asg W_ZERO = 0 -> asg W_ONE = 1 -> on_curve P ->
+  sat (pre ++ mul_point_rows jubjub point n ++ post) asg ->
+  let res := mul_point_result point n in
+  (val (asg jubjub) < 2 ^ 252)%Z /\
+  (asg (fst res), asg (snd res)) = ed_mul (val (asg jubjub)) P /\
+  on_curve (asg (fst res), asg (snd res)).
+Print Assumptions C12_mul_point_in_system.
